@@ -43,8 +43,8 @@ def _strategy():
                 op["wrong"] = draw(st.sampled_from(["xor1", "xor_hi", "xor_top", "zero", "ffff", "other"]))
             ops.append(op)
         return {"seed_key": seed_key,
-                "seeds": draw(st.lists(st.one_of(st.sampled_from([1, 0xFFFE, 0x8000, 0x00FF]), st.integers(1, 0xFFFE)), min_size=1, max_size=3)),
-                "ops": ops, "final_probe": True,
+                "seeds": draw(st.lists(st.one_of(st.sampled_from([0x0000, 0xFFFF, 1, 0xFFFE, 0x8000, 0x00FF]), st.integers(0, 0xFFFF)), min_size=1, max_size=3)),
+                "ops": ops, "final_probe": True, "sas": draw(st.sampled_from([[0xF9, 0xD4, 0xA7], [0xF9, 0xD4, 0xA7], [0x00, 0xD4, 0xA7], [0x01, 0x00, 0xFD], [0xFD, 0x80, 0x00], [0x7F, 0xFD, 0x01]])),
                 "lat": {"C": [draw(st.sampled_from([0.0002, 0.001, 0.005]))], "S": [draw(st.sampled_from([0.0002, 0.001, 0.005]))]}}
     return build()
 
@@ -66,7 +66,7 @@ class C18:
     ASSUMPTIONS = [
         "the serving application registers proceed and notify callbacks and answers from an application thread",
         "error indicators are reported with edcp 6 or 7 (the only extensions for which the client documents an exception)",
-        "seeds 0x0000/0xFFFF are not generated as seeds (0xFFFF means 'no key required'); keys may take any value",
+        "seeds and keys take any 16-bit value incl. the boundaries 0x0000 and 0xFFFF (set through set_seed_generator)",
     ]
     shrink_lists = ("ops",)
     shrink_min = {"ops": 1}
@@ -100,7 +100,8 @@ class C18:
         ops = list(p["ops"])
         if p.get("final_probe", True):
             ops = ops + [{"op": "read", "fate": "ok", "size": 1, "count": 5, "data_seed": 4242, "gap_after": 0.05, "addr_sel": 0, "raw": True}]
-        dw = D.Dm14World(p)
+        sas = p.get("sas", [D.SA_C, D.SA_S, D.SA_I])
+        dw = D.Dm14World(dict(p, sa_c=sas[0], sa_s=sas[1], sa_i=sas[2]))
         right = D.key_fn(p["seed_key"]) if p["seed_key"] else None
         try:
             txs, plans, exp = [], [], []
